@@ -62,6 +62,7 @@ int c_index = 0;
 bool c_in_init = false;
 long c_crash_write = -1, c_crash_budget = -1, c_write_count = 0;
 std::string c_cur_file;
+std::vector<int> c_failmask;
 bool c_cur_is_crash = false;
 
 void child_send(int kind, long a = 0, long b = 0, bool wait = true) {
@@ -125,10 +126,17 @@ class Op : public xtp::QMThread {
     for (;;) {
       xtp::Job *job = obs_.RequestNextJob(*this);
       if (job == nullptr) break;
-      child_send(M_EXEC, job->getId(), getId(), false);
+      {
+        bool f = ((c_failmask.size() >= size_t(job->getId()) ? c_failmask[size_t(job->getId()) - 1] : 0) >> c_index) & 1;
+        child_send(M_EXEC, job->getId(), getId() | (f ? 256 : 0), false);
+      }
       vvs::yield_point();  // "evaluation" of the job: other threads may run
       xtp::Job::JobResult res;
-      res.setStatus(xtp::Job::COMPLETE);
+      // jobs may fail in a given process (bit c_index of the job's fail mask): a FAILED result of a live process is what a
+      // concurrently started process with restart pattern stat(FAILED) re-opens
+      bool fails = ((c_failmask.size() >= size_t(job->getId()) ? c_failmask[size_t(job->getId()) - 1] : 0) >> c_index) & 1;
+      res.setStatus(fails ? xtp::Job::FAILED : xtp::Job::COMPLETE);
+      if (fails) res.setError("failed");
       res.setOutput("p" + std::to_string(c_index) + "t" + std::to_string(getId()) + "j" + std::to_string(job->getId()));
       obs_.ReportJobDone(*job, res, *this);
     }
@@ -145,6 +153,7 @@ class Op : public xtp::QMThread {
   c_in = in_fd;
   c_index = index;
   const json &pc = c.at("procs")[size_t(index)];
+  c_failmask = c.value("failmask", std::vector<int>());
   if (!c.at("crash").is_null() && int(c.at("crash").at("proc")) == index) {
     c_crash_write = c.at("crash").at("write");
     c_crash_budget = c.at("crash").at("budget");
@@ -577,7 +586,7 @@ Result run_history(const json &c) {
     if (running >= 0) {
       Proc &p = W.ps[size_t(running)];
       Wire w;
-      int to = p.may_block ? 300 : 60000;
+      int to = p.may_block ? int(c.value("hold_ms", 300)) : 60000;
       if (!read_msg(p, w, to)) {
         if (p.may_block) {
           p.st = Proc::BLOCKED;
@@ -726,21 +735,35 @@ Result run_history(const json &c) {
     }
   }
   std::map<long, int> count;
-  std::map<long, std::string> executor;
+  std::map<long, std::string> executor;   // of the LAST execution
+  std::map<long, bool> last_failed;
   std::map<long, long> per_proc;
+  bool reexecuted = false;
   for (auto &e : W.exec) {
+    long thread = e[1] & 255;
+    bool failed = (e[1] & 256) != 0;
+    bool stat_failed = restart_of(c, size_t(e[0])).find("FAILED") != std::string::npos;
+    if (count[e[2]] == 0) {
+      if (!restart_selected(c, size_t(e[0])).count(e[2]))
+        r.fail("C10/restart-selection", fmt("process %ld executed job %ld which is neither AVAILABLE nor named by that process's restart pattern", e[0], e[2]));
+    } else if (last_failed[e[2]] && stat_failed) {
+      // the documented meaning of stat(FAILED): the job failed in another (live) process and is re-opened by this one
+      reexecuted = true;
+    } else {
+      r.fail("C10/job-executed-twice", fmt("job %ld was executed again by process %ld although its previous execution %s and that process's restart pattern is '%s'",
+                                            e[2], e[0], last_failed[e[2]] ? "failed" : "completed", restart_of(c, size_t(e[0])).c_str()));
+    }
     count[e[2]]++;
-    executor[e[2]] = "p" + std::to_string(e[0]) + "t" + std::to_string(e[1]) + "j" + std::to_string(e[2]);
+    executor[e[2]] = "p" + std::to_string(e[0]) + "t" + std::to_string(thread) + "j" + std::to_string(e[2]);
+    last_failed[e[2]] = failed;
     per_proc[e[0]]++;
-    if (!restart_selected(c, size_t(e[0])).count(e[2]))
-      r.fail("C10/restart-selection", fmt("process %ld executed job %ld which is neither AVAILABLE nor named by that process's restart pattern", e[0], e[2]));
   }
+  if (reexecuted) r.cls("failed-job-of-live-process-re-opened");
   r.nontrivial = np >= 2 && overlap_attempt;
   if (overlap_attempt) r.cls("lock-contention");
   if (capped) r.cls("maxjobs");
   if (nondefault) r.cls("nondefault-process-order");
   for (auto &kv : count) {
-    if (kv.second > 1) r.fail("C10/job-executed-twice", fmt("job %ld was executed %d times", kv.first, kv.second));
     if (!may.count(kv.first)) r.fail("C10/unselected-job-executed", fmt("job %ld was neither AVAILABLE nor named by a restart pattern but was executed", kv.first));
   }
   for (size_t i = 0; i < np; ++i) {
@@ -766,7 +789,7 @@ Result run_history(const json &c) {
         break;
       }
       if (count.count(j.id)) {
-        if (j.status != "COMPLETE" || j.output != executor[j.id])
+        if (j.status != (last_failed[j.id] ? "FAILED" : "COMPLETE") || j.output != executor[j.id])
           r.fail("C10/result-lost-or-overwritten", fmt("job %ld was executed (%s) but the final file says status=%s output='%s'", j.id,
                                                          executor[j.id].c_str(), j.status.c_str(), j.output.c_str()));
       } else {
@@ -797,6 +820,12 @@ json gen_history() {
     jobs.push_back({{"status", stt}, {"host", host}});
   }
   c["jobs"] = jobs;
+  {
+    std::vector<int> fm;
+    bool withfail = rbool(35);
+    for (int i = 0; i < nj; ++i) fm.push_back(withfail && rbool(40) ? ri(1, 7) : 0);
+    c["failmask"] = fm;
+  }
   int np = pick({1, 2, 2, 2, 3});
   json procs = json::array();
   for (int i = 0; i < np; ++i) {
@@ -818,6 +847,10 @@ json gen_history() {
       else
         c["procs"][size_t(i)]["restart"] = same ? common : pickv(multi);
     }
+    // with failing jobs around, make sure somebody is there to re-open them
+    bool anyfail = false;
+    for (auto &m : c["failmask"]) anyfail |= int(m) != 0;
+    if (anyfail && np > 1 && rbool(70)) c["procs"][size_t(ri(0, np - 1))]["restart"] = "stat(FAILED)";
   }
   int plen = rcount(0, 60);
   std::vector<int> pch;
@@ -832,6 +865,18 @@ json gen_history() {
 
 // thorough: for fixed small histories, every byte offset of the n-th write of process 0
 void enum_crash(int level, const std::function<bool(const json &)> &emit) {
+  // long holds: a process is kept inside the critical section for 32 s while the other one waits for the lock (a lock
+  // that gives up after a while still has to exclude)
+  for (int v = 0; v < 2; ++v) {
+    json c;
+    c["jobs"] = json::array({{{"status", "AVAILABLE"}, {"host", ""}}, {{"status", "AVAILABLE"}, {"host", ""}}, {{"status", "AVAILABLE"}, {"host", ""}}});
+    c["procs"] = json::array({{{"threads", 1}, {"cache", 1}, {"maxjobs", -1}, {"choices", json::array()}, {"restart", ""}},
+                              {{"threads", 1}, {"cache", 1}, {"maxjobs", -1}, {"choices", json::array()}, {"restart", ""}}});
+    c["pchoices"] = v == 0 ? std::vector<int>{0, 0, 0, 1, 1, 0, 0, 1} : std::vector<int>{1, 1, 0, 0, 0, 1, 1, 0};
+    c["crash"] = nullptr;
+    c["hold_ms"] = 32000;
+    if (!emit(c)) return;
+  }
   for (int variant = 0; variant < level; ++variant) {
     json c;
     json jobs = json::array();
